@@ -15,7 +15,7 @@ structure NavInv (S : Sem) (c : ECfg S) (Q : Live S.V → Live S.V → Prop) : P
   execute : ∀ pid l, Q (executePassage c pid l).1 l
   mark : ∀ cid l, Q (markEntered c cid l) l
   out : ∀ (l : Live S.V) o, Q { l with out := some o } l
-  cur : ∀ (l : Live S.V) x, Q { l with cur := x } l
+  cur : ∀ (l : Live S.V) x j, Q { l with cur := x, joinIdx := j } l
   scope : ∀ (l l' : Live S.V) sc, Q l' { l with scopes := sc :: l.scopes } →
     Q { l' with scopes := l'.scopes.tail } l
 
@@ -89,7 +89,7 @@ theorem goto_inv (h : NavInv S c Q) : ∀ (fuel : Nat) (spec : String) (l : Live
       split
       · rename_i l' e he
         rw [he] at hl
-        exact h.trans (h.cur l' l.cur) hl
+        exact h.trans (h.cur l' l.cur l.joinIdx) hl
       · exact hl
     unfold goto
     split
